@@ -1,5 +1,10 @@
 //! C04 — status ↔ header codec: Status::add_header / from_header_map, Code tables, HTTP and
 //! HTTP/2 mapping tables (exhaustive over each finite domain on every run).
+//! Case kinds: `code` `codei` `u8` (tables), `enc` `dec` `rt` `rth` (the codec), `infer` `inferb`
+//! (end of a response stream), `h2` `rst` `toh2` (HTTP/2 error codes), and — added by the proactive
+//! dimension audit, see the header of c04_x.rs — `cli` (a real client::Grpc reads a scripted
+//! response), `wr` (EncodeBody / server::Grpc write a failing call), `mk` (one status value made in
+//! different ways).
 use crate::common::*;
 use bytes::{Buf, Bytes};
 use http::{HeaderMap, HeaderName, HeaderValue};
@@ -7,6 +12,9 @@ use http_body::Frame;
 use tonic::codec::{DecodeBuf, Decoder, Streaming};
 use tonic::metadata::MetadataMap;
 use tonic::{Code, Status};
+
+#[path = "c04_x.rs"]
+mod x;
 
 // ---------------------------------------------------------------------------------------------
 // canonical text forms (shared with c08.rs)
@@ -231,7 +239,8 @@ pub fn execute(case: &str) -> String {
                 None => "no-reason".into(),
             }
         }
-        _ => "bad-case".into(),
+        Some(kind) => x::execute(kind, &mut it).unwrap_or_else(|| "bad-case".into()),
+        None => "bad-case".into(),
     }
 }
 
@@ -1064,5 +1073,7 @@ pub fn generate(tier: &str, rng: &mut Rng) -> Vec<String> {
         }
         out.push(format!("inferb {} {} {}", http, evs.len(), evs.join(" ")).trim_end().to_string());
     }
+    // ---- dimensions added by the proactive audit (c04_x.rs)
+    x::generate(tier, rng, &mut out);
     out
 }
